@@ -90,11 +90,13 @@ Inductive eoutcome :=
 | EoFuel.
 
 (* the program of a request, once the typed document and the coerced variables are there *)
+Definition ex_cx_for (s : schema) (d : rdoc) (vars : jmap) : ectx :=
+  {| ex_schema := s; ex_frags := rd_frags d; ex_vars := vars;
+     ex_cfuel := ex_cfuel_for d; ex_afuel := ex_afuel_for s d |}.
+
 Definition execute_prog (s : schema) (d : rdoc) (vars : jmap) (root : str) (impls : list str)
   : prog (xres jmap * list gerr) :=
-  let cx := {| ex_schema := s; ex_frags := rd_frags d; ex_vars := vars;
-               ex_cfuel := ex_cfuel_for d; ex_afuel := ex_afuel_for s d |} in
-  ex_selset (ex_fuel_for d) cx [] root impls 0 (rd_sels d) [].
+  ex_selset (ex_fuel_for d) (ex_cx_for s d vars) [] root impls 0 (rd_sels d) [].
 
 Definition ex_outcome (r : xres jmap * list gerr) : eoutcome :=
   match r with
